@@ -33,15 +33,15 @@ func (s Spelling) IsSep() bool    { return s == SpShortSep || s == SpLongSep }
 type ItemKind int
 
 const (
-	IOcc     ItemKind = iota // one occurrence of an argument-taking option with a value
-	IFlag                    // one occurrence of a no-argument option (short or long form)
-	ICluster                 // -abc (all flags), optionally ending in an argument-taking option with separate value
-	IOptNoArg                // optional-argument option given without argument
-	IPos                     // plain token that binds a positional or becomes a remaining argument
-	ICmd                     // command word
-	ITerm                    // the -- terminator
-	IRaw                     // verbatim token after the terminator / after the first non-option under PassAfterNonOption
-	IFault                   // injected fault (rendered tokens given literally)
+	IOcc      ItemKind = iota // one occurrence of an argument-taking option with a value
+	IFlag                     // one occurrence of a no-argument option (short or long form)
+	ICluster                  // -abc (all flags), optionally ending in an argument-taking option with separate value
+	IOptNoArg                 // optional-argument option given without argument
+	IPos                      // plain token that binds a positional or becomes a remaining argument
+	ICmd                      // command word
+	ITerm                     // the -- terminator
+	IRaw                      // verbatim token after the terminator / after the first non-option under PassAfterNonOption
+	IFault                    // injected fault (rendered tokens given literally)
 )
 
 type Item struct {
@@ -339,24 +339,24 @@ func (e *Expect) FinalValue(o *Opt) (string, bool) {
 // ---------------------------------------------------------------------------
 
 type ScenCfg struct {
-	MaxItems   int
-	PCluster   int
-	PPos       int
-	PCmd       int
-	PTerm      int
-	POcc       int
-	PQuoted    int
-	HostileRaw bool // raw tokens after the terminator include option-shaped / odd tokens
-	NoRest     bool // do not emit plain tokens that would become remaining arguments
-	MaxOccPer  int
-	PosTextFn  func(r *Rand, a *PosArg) string
-	PSiblingWord  int // % of plain tokens that equal the name of a command which is NOT a sub-command of the current one
-	PCmdWordAsPos int // % of positional tokens that equal a sub-command name of the current command
-	SkipReq    bool // never mention required options spontaneously (the caller supplies a chosen subset)
-	PUnknown   int  // % of steps that emit an unknown option token (only under IgnoreUnknown: passed through)
-	Focus      *Opt // an option the scenario should mention FocusN times
-	FocusN     int
-	Target     *Cmd // the command the scenario should end in (nil = random walk)
+	MaxItems      int
+	PCluster      int
+	PPos          int
+	PCmd          int
+	PTerm         int
+	POcc          int
+	PQuoted       int
+	HostileRaw    bool // raw tokens after the terminator include option-shaped / odd tokens
+	NoRest        bool // do not emit plain tokens that would become remaining arguments
+	MaxOccPer     int
+	PosTextFn     func(r *Rand, a *PosArg) string
+	PSiblingWord  int  // % of plain tokens that equal the name of a command which is NOT a sub-command of the current one
+	PCmdWordAsPos int  // % of positional tokens that equal a sub-command name of the current command
+	SkipReq       bool // never mention required options spontaneously (the caller supplies a chosen subset)
+	PUnknown      int  // % of steps that emit an unknown option token (only under IgnoreUnknown: passed through)
+	Focus         *Opt // an option the scenario should mention FocusN times
+	FocusN        int
+	Target        *Cmd // the command the scenario should end in (nil = random walk)
 }
 
 type Scenario struct {
@@ -368,18 +368,18 @@ type Scenario struct {
 }
 
 type walker struct {
-	d       *Decl
-	r       *Rand
-	cfg     *ScenCfg
-	cur     *Cmd
-	scope   *Scope
-	pending []*PosArg
-	rest    bool // remaining arguments already non-empty
-	passed  bool // everything from here on is passed through verbatim (terminator / PassAfterNonOption)
-	exp     *Expect
-	items   []*Item
-	occCnt  map[*Opt]int
-	force   bool
+	d        *Decl
+	r        *Rand
+	cfg      *ScenCfg
+	cur      *Cmd
+	scope    *Scope
+	pending  []*PosArg
+	rest     bool // remaining arguments already non-empty
+	passed   bool // everything from here on is passed through verbatim (terminator / PassAfterNonOption)
+	exp      *Expect
+	items    []*Item
+	occCnt   map[*Opt]int
+	force    bool
 	unknowns int
 }
 
@@ -432,6 +432,9 @@ var rawTokens = []string{"-x", "--long", "--long=v", "-", "--", "---", "", "-=",
 func (w *walker) posText(a *PosArg) string {
 	if w.cfg.PosTextFn != nil {
 		return w.cfg.PosTextFn(w.r, a)
+	}
+	if a.T.W == WMap {
+		return fmt.Sprintf("k%d:%s", w.r.Intn(4), GenScalarText(w.r, a.T.K, a.Base, 0))
 	}
 	if a.T.K == KString {
 		return w.plainToken()
@@ -706,9 +709,12 @@ func (w *walker) fillPending(pdd, pano bool) {
 	tok := w.posText(a)
 	if optionShaped(tok) || (pdd && tok == "--") || w.scope.Cmds[tok] != nil {
 		tok = "t1"
-		if a.T.K != KString {
+		if a.T.K != KString || a.T.W == WMap {
 			for i := 0; i < 50; i++ {
 				tok = GenScalarText(w.r, a.T.K, a.Base, 0)
+				if a.T.W == WMap {
+					tok = "k9:" + tok
+				}
 				if !optionShaped(tok) {
 					break
 				}
@@ -896,6 +902,9 @@ func UnknownToken(r *Rand, d *Decl, sc *Scope) string {
 					bs[r.Intn(len(bs))] = 'q'
 					name = string(bs)
 				}
+			} else if r.Chance(1, 3) {
+				// names with characters that are special to formatted printing or to the message syntax
+				name = r.Pick([]string{"rate%d", "100%", "%s", "a%v%!b", "zz%", "sp ace", "tab\there", "%%"})
 			} else {
 				name = fmt.Sprintf("zz%d", r.Intn(1000))
 			}
